@@ -236,6 +236,9 @@ func c11Scenarios(tier string) []Scenario {
 			if len(ps) == 2 {
 				pp = P - 1
 			}
+			if closes[i%4] == "stalledwriter" && pp > 1 {
+				pp-- // two more requests are in flight at the disconnect
+			}
 			add(c11Params{Prefix: prefix, Parked: ps, Close: closes[i%4], Maxpend: []int{0, 2}[i%2], Dotu: i%4 < 2, P: pp})
 		}
 	}
